@@ -14,10 +14,10 @@ for line in out.splitlines():
     h, subj = line.split("\t", 1)
     if not subj.startswith("fix:"):
         continue
-    m = re.search(r"\((C\d\d(?:/C\d\d)*)\)\s*$", subj)
-    props = m.group(1).split("/") if m else ["?"]
+    m = re.search(r"\((C\d\d(?:(?:/|,\s*)C\d\d)*)\)\s*$", subj)
+    props = re.split(r"/|,\s*", m.group(1)) if m else ["?"]
     what = subj[4:].strip()
-    what = re.sub(r"\s*\((C\d\d(?:/C\d\d)*)\)\s*$", "", what)
+    what = re.sub(r"\s*\((C\d\d(?:(?:/|,\s*)C\d\d)*)\)\s*$", "", what)
     for p in props:
         fixed.append({"id": "fixed-%s-%s" % (h, p), "property": p, "status": "fixed", "commit": h, "mechanism": what,
                       "line": "fixed: property=%s %s %s" % (p, h, what)})
